@@ -6,6 +6,7 @@ package lexm
 import (
 	"fmt"
 	"strings"
+	"unicode"
 )
 
 type Rng struct{ Lo, Hi rune }
@@ -82,17 +83,34 @@ func Esc(r rune, inClass bool) string {
 	}
 }
 
+// EscVar is Esc with the spelling picked among the documented equivalents by h (any
+// deterministic number): printable non-ASCII characters are written raw half of the time
+// instead of as \uXXXX, and plain ASCII characters now and then as \xXX. Characters that
+// need an escape keep the spelling of Esc.
+func EscVar(r rune, inClass bool, h int) string {
+	if h < 0 {
+		h = -h
+	}
+	switch {
+	case r > 0x7F && unicode.IsPrint(r) && h%2 == 0:
+		return string(r)
+	case r > 0x20 && r < 0x7F && h%5 == 3 && Esc(r, inClass) == string(r):
+		return fmt.Sprintf(`\x%02X`, r)
+	}
+	return Esc(r, inClass)
+}
+
 func classText(rs []Rng, neg bool) string {
 	var b strings.Builder
 	if neg {
 		b.WriteString("~")
 	}
 	b.WriteString("[")
-	for _, r := range rs {
-		b.WriteString(Esc(r.Lo, true))
+	for i, r := range rs {
+		b.WriteString(EscVar(r.Lo, true, int(r.Lo)*31+i*17+len(rs)))
 		if r.Hi != r.Lo {
 			b.WriteString("-")
-			b.WriteString(Esc(r.Hi, true))
+			b.WriteString(EscVar(r.Hi, true, int(r.Hi)*29+i*13+len(rs)))
 		}
 	}
 	b.WriteString("]")
@@ -105,8 +123,9 @@ func (e *Expr) Text(top bool) string {
 	case "lit":
 		var b strings.Builder
 		b.WriteString("'")
-		for _, r := range e.Lit {
-			b.WriteString(Esc(r, false))
+		n := len([]rune(e.Lit))
+		for i, r := range []rune(e.Lit) {
+			b.WriteString(EscVar(r, false, int(r)*31+i*17+n))
 		}
 		b.WriteString("'")
 		return b.String()
